@@ -324,6 +324,18 @@ def rewrite_loops(body, log, fname, slice_map=None):
                 log.append('R2 %s: `%s`' % (fname, hn))
                 changed = True
                 break
+            # R4: for (a, b) in X   (by-value iteration of an ArrayVec of Copy tuples)
+            m = re.match(r'for \((\w+), (\w+)\) in (\w+)$', hn)
+            if m and m.group(3) in slice_map:
+                a_, b_, x_ = m.groups()
+                k = len(set(re.findall(r'\bverif_k\d+\b', body)))
+                idx, sl = 'verif_k%d' % k, 'verif_sl%d' % k
+                new = ('let %s = %s;\n let mut %s: usize = 0;\n while %s < %s.len() /*@LOOPHEAD*/ {\n let (%s, %s) = %s[%s];\n%s\n %s += 1;\n }'
+                       % (sl, slice_map[x_], idx, idx, sl, a_, b_, sl, idx, inner, idx))
+                body = body[:kpos] + new + body[cpos + 1:]
+                log.append('R4 %s: `%s` iterated by index through `%s`' % (fname, hn, slice_map[x_]))
+                changed = True
+                break
             # R2: for v in X.iter()
             m = re.match(r'for (\w+) in (.+?)\.iter\(\)$', hn)
             if m:
